@@ -225,6 +225,11 @@ func (sc *Scope) pkgObj(obj types.Object) (Val, bool) {
 		for _, p := range c.P.Prog.AllPackages() {
 			if p.Pkg == o.Pkg() {
 				if g := p.Var(o.Name()); g != nil {
+					if sc.e != nil {
+						if cv, ok := sc.e.immutableGlobal(g); ok {
+							return cv, true
+						}
+					}
 					gv := c.globalRef(g)
 					t := o.Type()
 					if isStruct(t) {
@@ -725,6 +730,22 @@ func (sc *Scope) evalCall(x *ECall) Val {
 		need(1)
 		v := arg(0)
 		return Val{T: fmt.Sprintf("(sl_arr %s)", v.T), S: SRef}
+	case "param":
+		// param(x): the entry value of parameter x (when a loop variable shadows its name)
+		need(1)
+		id, ok := x.Args[0].(*EIdent)
+		if !ok {
+			sc.fail("param(name)")
+		}
+		v, ok := sc.params[id.Name]
+		if !ok {
+			sc.fail("no parameter %s", id.Name)
+		}
+		return v
+	case "root":
+		need(1)
+		v := arg(0)
+		return Val{T: fmt.Sprintf("(root %s)", v.T), S: SRef}
 	case "off":
 		need(1)
 		v := arg(0)
@@ -812,6 +833,24 @@ func (sc *Scope) evalCall(x *ECall) Val {
 		v := arg(0)
 		lo, hi := sc.toIdx(arg(1)), sc.toIdx(arg(2))
 		return Val{T: fmt.Sprintf("(mk_Slice (sl_arr %s) %s %s %s)", v.T, c.add(fmt.Sprintf("(sl_off %s)", v.T), lo), c.sub(hi, lo), c.sub(fmt.Sprintf("(sl_cap %s)", v.T), lo)), S: SSlice, GT: v.GT}
+	case "elems_frame":
+		// elems_frame(type(T), s): in the element component of []T, every cell outside the
+		// allocation of s's backing array is unchanged between old and current state
+		need(2)
+		tv := sc.eval(x.Args[0])
+		if tv.TypeLit == nil {
+			sc.fail("elems_frame(type(T), s)")
+		}
+		v := arg(1)
+		comp := c.elemComp(tv.TypeLit)
+		return Val{T: fmt.Sprintf("(forall ((r!e Ref)) (! (=> (and (select %s (root r!e)) (not (= (root r!e) (root (sl_arr %s))))) (= (select %s r!e) (select %s r!e))) :pattern ((select %s r!e))))", c.hget(sc.old, "$alloc"), v.T, c.hget(sc.cur, comp), c.hget(sc.old, comp), c.hget(sc.cur, comp)), S: SBool, GT: boolT}
+	case "zero":
+		need(1)
+		tv := sc.eval(x.Args[0])
+		if tv.TypeLit == nil {
+			sc.fail("zero(type(T))")
+		}
+		return Val{T: c.zero(tv.TypeLit), S: c.sortOf(tv.TypeLit), GT: tv.TypeLit}
 	case "closed":
 		need(1)
 		v := arg(0)
